@@ -43,9 +43,13 @@
      of its share, unless a LATER commit of that target touched the path - that commit step is exhibited as a position
      of the run after the proposal's own commit step ([touched_in]) - OR no proposal of the transaction has a Commit
      phase and no step of any of its proposals, anywhere in the run, altered the live view of any target.
-     Named premise not discharged: committed_means_merged ls - every proposal that is COMMITTED at the end was
+     Named premise: committed_means_merged ls - every proposal that is COMMITTED at the end was
      merged by a commit step of the run that found Committed.Index = PrevIndex (reconcileCommit marks a proposal
      COMMITTED without merging when the index is elsewhere; that this cannot happen is a statement about the cursors).
+   - C01_all_or_none_values: the same statement WITHOUT that premise - it is proved for every run of complete
+     invocations (Proofs/P2PureAtomicMerged.v: committed_means_merged_holds, through the invariants B_inv - no proposal
+     lies strictly between a proposal and its PrevIndex - and J_inv - a proposal that is neither COMMITTED nor aborting
+     nor applying has its index above Committed.Index).
      For the deleted paths of a change the theorem states only what holds right after the commit
      (C01_commit_contains_change); "still nothing there unless a later commit wrote it" is not stated.
    What remains partial: "contains all of that request's changes" as a statement about the merged VALUES
@@ -215,3 +219,23 @@ Print Assumptions C01_untouched_targets_keep_values.
 Print Assumptions C01_other_target_keeps.
 Print Assumptions C01_committed_value_persists.
 Print Assumptions C01_all_or_none_values_partial.
+
+(* the premise [committed_means_merged] discharged (Proofs/P2PureAtomicMerged.v): in a run of complete invocations every
+   commit step finds Committed.Index = PrevIndex, so every COMMITTED proposal was merged *)
+From OC Require Import Proofs.P2PureAtomicMerged.
+Theorem C01_all_or_none_values :
+  forall ls : list Label,
+  labels_wfb ls = true -> completes p2_init ls -> (forall c o, fst (p2_reconcile o (x_run ls) c) = []) ->
+  forall i (T : Txn), txs (x_run ls) !! i = Some T ->
+    (forall t, In t (default [] (t_props T)) ->
+       exists (P : Prop2) (C : Cfg), props (x_run ls) !! (t, i) = Some P /\ p_commit P = Some Done /\ cfgs (x_run ls) !! t = Some C /\
+         forall c p u, p_details P = PChange c -> In (p, u) c -> pv_deleted u = false ->
+           In (p, pv_val u) (live (view overlay C)) \/
+           exists ls1 ls2 n o, ls = ls1 ++ LRec (CtlProp (t, i)) n o :: ls2 /\
+                               touched_in (x_run (ls1 ++ [LRec (CtlProp (t, i)) n o])) ls2 t p) \/
+    ((forall t P, props (x_run ls) !! (t, i) = Some P -> p_commit P = None) /\
+     forall ls1 ls2 t n o t' (C C' : Cfg), ls = ls1 ++ LRec (CtlProp (t, i)) n o :: ls2 ->
+       cfgs (x_run ls1) !! t' = Some C -> cfgs (p2_step (x_run ls1) (LRec (CtlProp (t, i)) n o)) !! t' = Some C' ->
+       live (view overlay C') = live (view overlay C)).
+Proof. exact all_or_none_values. Qed.
+Print Assumptions C01_all_or_none_values.
